@@ -397,6 +397,11 @@ def run_task(task):
     bb_types = pr.method(None, 'BasicBlock', 'propagate_types'); bb_cache = pr.method('VariableMeta', 'BasicBlock', 'cache_variable_use')
     decl_new = pr.method(None, 'Declaration', 'new', file_hint='declarations.rs'); decls_add = pr.method(None, 'Declarations', 'add_declaration')
     cfg_types = pr.method(None, 'Cfg', 'propagate_types'); cfg_values = pr.method(None, 'Cfg', 'propagate_values'); cfg_cache = pr.method(None, 'Cfg', 'cache_variable_use')
+    ccpass = pr.find('find_constant_conditional_statement', crate='analysis')
+
+    def cc_report(ex, a, m):
+        ex.notes['cc'][ir.get(deref(a[0]), 'location').f[0]] = a[1]; return Opaque('report', 'cc')
+    R(r'(?:constant_conditional::)?build_report', cc_report)
     side = pr.find('run_side_effect_analysis', crate='analysis'); cfg_degrees = pr.method(None, 'Cfg', 'propagate_degrees')
 
     def entry(ex):
@@ -441,7 +446,10 @@ def run_task(task):
         ex.call_mir(cfg_values, [Ref(ccell, 0)])
         ex.call_mir(cfg_cache, [Ref(ccell, 0)])
         if task.get('mode') == 'values':
-            ex.notes['cfg'] = ccell[0]; return 'values'
+            ex.notes['cfg'] = ccell[0]
+            ex.notes['cc'] = {}
+            ex.call_mir(ccpass, [Ref(ccell, 0)])          # the pass behind the `constant branch condition` finding
+            return 'values'
         if task.get('mode') == 'degrees':
             ex.call_mir(cfg_degrees, [Ref(ccell, 0)])
             ex.notes['cfg'] = ccell[0]; return 'degrees'
@@ -566,6 +574,9 @@ def run_task(task):
             irst = stmts.get(i)
             cval = ev(ir.get(irst, 'cond'), st, pc, obls, i) if irst is not None else ('bool', fval(st[conds[i]]) < 3)
             c = cval[1]; cz = c if is_sym(c) else z3.BoolVal(bool(c))
+            if i in ex.notes['cc']:
+                said = ex.notes['cc'][i]; said = ex.decide(said) if is_sym(said) else said
+                obls.append((list(pc), (cz == z3.BoolVal(bool(said))), 'the finding `This condition is always %s` at statement %s' % (str(bool(said)).lower(), i)))
             cp = lambda d_: {k_: (list(v_) if isinstance(v_, list) else v_) for k_, v_ in d_.items()}
             for val in (True, False):
                 pcn = pc + [cz if val else z3.Not(cz)]
@@ -584,7 +595,7 @@ def run_task(task):
         for pc, holds, what in obls:
             if holds is True: ex.oblige(True, 'value-claim', what); continue
             hz = holds if is_sym(holds) else z3.BoolVal(bool(holds))
-            ex.oblige(z3.Implies(z3.And(*pc), hz) if pc else hz, 'value-claim', '%s, but it has another value in some execution (%s)' % (what, text), extra=info)
+            ex.oblige(z3.Implies(z3.And(*pc), hz) if pc else hz, 'value-claim', '%s, but it has another value in some execution (%s)' % (what, text) if 'finding' not in what else '%s is issued, but the condition evaluates to the opposite in some execution (%s)' % (what, text), extra=info)
         ex.oblige(True, 'claims', 'every value claim on this program checked (%d claim instances)' % nclaims[0])
 
     def post_degrees(ex):
